@@ -1,0 +1,18 @@
+//go:build verif
+// +build verif
+
+package HolidayUtil
+
+// Verification hooks (build tag "verif"): observe / restore the package state that Fix mutates.
+
+// VerifDataInUse returns the record string currently in use.
+func VerifDataInUse() string { return dataInUse }
+
+// VerifNamesInUse returns the name table currently in use.
+func VerifNamesInUse() []string { return namesInUse }
+
+// VerifReset restores the built-in data and names.
+func VerifReset() {
+	dataInUse = data
+	namesInUse = NAMES
+}
